@@ -8,8 +8,8 @@
      with pairwise distinct identifier cells exactly the row the set pairs with the
      value, and None iff no row has it;
    - decoding the DER of a frame whose open-type values belong to the selected row
-     returns the identifier, that row and the same values (std: X.690; the C: when
-     every open-type member has a tag of its own — refuted otherwise);
+     returns the identifier, that row and the same values (open-type members with
+     or without a tag of their own);
    - an identifier without a row fails; bytes the selected row's type does not decode
      fail, no other row is tried; whatever is accepted was decoded by the selected
      row's type and carries its presence index;
@@ -33,41 +33,35 @@ Theorem C18_select_paired : forall tbl v, ids_distinct tbl ->
 Proof. exact select_paired. Qed.
 Print Assumptions C18_select_paired.
 
-Theorem C18_opentype_roundtrip_partial : forall std f idv i tys vs bs rest,
+Theorem C18_opentype_roundtrip : forall f idv i tys vs bs rest,
   wf_ty (f_idt f) = true -> not_opt (f_idt f) = true -> wt (f_idt f) idv = true ->
-  tags_ok std (f_opens f) = true ->
+  tags_ok (f_opens f) = true ->
   select (f_tbl f) idv = Some (i, tys) -> opens_ok tys vs = true ->
   der_frame f (idv, with_row i vs) = Some bs -> zlen bs <= rssize_max ->
-  ber_dec_frame std f (bs ++ rest) = Some ((idv, with_row i vs), rest).
+  ber_dec_frame f (bs ++ rest) = Some ((idv, with_row i vs), rest).
 Proof. exact opentype_roundtrip. Qed.
-Print Assumptions C18_opentype_roundtrip_partial.
+Print Assumptions C18_opentype_roundtrip.
 
-Theorem C18_untagged_open_type_refuted :
-  exists f fv bs, der_frame f fv = Some bs /\ ber_dec_frame true f bs = Some (fv, []) /\
-                  ber_dec_frame false f bs = None.
-Proof. exact untagged_open_type_refuted. Qed.
-Print Assumptions C18_untagged_open_type_refuted.
-
-Theorem C18_unknown_identifier_fails : forall std f c idv r,
+Theorem C18_unknown_identifier_fails : forall f c idv r,
   f_opens f <> [] -> ber_dec (f_idt f) c = Some (idv, r) -> select (f_tbl f) idv = None ->
-  dec_frame_body std f c = None.
+  dec_frame_body f c = None.
 Proof. exact opentype_unknown_id_fails. Qed.
 Print Assumptions C18_unknown_identifier_fails.
 
-Theorem C18_opentype_mismatch_fails : forall std f c idv r i t tys tag tags,
+Theorem C18_opentype_mismatch_fails : forall f c idv r i t tys tag tags,
   f_opens f = tag :: tags -> ber_dec (f_idt f) c = Some (idv, r) ->
-  select (f_tbl f) idv = Some (i, t :: tys) -> dec_open std tag t r = None ->
-  dec_frame_body std f c = None.
+  select (f_tbl f) idv = Some (i, t :: tys) -> dec_open tag t r = None ->
+  dec_frame_body f c = None.
 Proof. exact opentype_mismatch_fails. Qed.
 Print Assumptions C18_opentype_mismatch_fails.
 
-Theorem C18_opentype_decodes_paired : forall std f bs idv ovs rest,
-  f_opens f <> [] -> ber_dec_frame std f bs = Some ((idv, ovs), rest) ->
+Theorem C18_opentype_decodes_paired : forall f bs idv ovs rest,
+  f_opens f <> [] -> ber_dec_frame f bs = Some ((idv, ovs), rest) ->
   exists i tys c r, select (f_tbl f) idv = Some (i, tys) /\
     ber_dec (f_idt f) c = Some (idv, r) /\
     length ovs = length (f_opens f) /\ Forall (fun ov => fst ov = i) ovs /\
     (forall tag tags, f_opens f = tag :: tags ->
-       exists t tys' v ovs' r', tys = t :: tys' /\ ovs = (i, v) :: ovs' /\ dec_open std tag t r = Some (v, r')).
+       exists t tys' v ovs' r', tys = t :: tys' /\ ovs = (i, v) :: ovs' /\ dec_open tag t r = Some (v, r')).
 Proof. exact opentype_decodes_paired. Qed.
 Print Assumptions C18_opentype_decodes_paired.
 
